@@ -11,21 +11,23 @@ reply function of the server (induction over the reply-evaluation loops).
 namespace Rv.C47
 open Rv.InitPlan Rv.Gen.InitPlan
 
-/-! ### transport: every valuation of the guard atoms is one of the 2^13 Boolean tuples -/
+/-! ### transport: the guard valuation of any option record is one of 2^13 Boolean tuples
 
-def evOf (b0 b1 b2 b3 b4 b5 b6 b7 b8 b9 b10 b11 b12 : Bool) : Atom → Bool
-  | .passOnly => b0 | .hasUser => b1 | .hasName => b2 | .azInfo => b3 | .cache => b4 | .trackNil => b5
+The two credential tests are the independent inputs (`password != ""`, `username == ""`); the
+guard atoms the source uses for credentials (`passOnly`, `hasUser`, and `passNonEmpty` / `userEmpty`
+should the source nest the tests) are functions of them. -/
+
+def evOf (pne ue b2 b3 b4 b5 b6 b7 b8 b9 b10 b11 b12 : Bool) : Atom → Bool
+  | .passOnly => pne && ue | .hasUser => !ue | .passNonEmpty => pne | .userEmpty => ue
+  | .hasName => b2 | .azInfo => b3 | .cache => b4 | .trackNil => b5
   | .selDB => b6 | .readonly => b7 | .noTouch => b8 | .noEvict => b9 | .redirect => b10
   | .setInfo2 => b11 | .setInfoNil => b12
 
-private theorem ev_eq (ev : Atom → Bool) :
-    ev = evOf (ev .passOnly) (ev .hasUser) (ev .hasName) (ev .azInfo) (ev .cache) (ev .trackNil) (ev .selDB)
-      (ev .readonly) (ev .noTouch) (ev .noEvict) (ev .redirect) (ev .setInfo2) (ev .setInfoNil) := by
+private theorem evalAtom_is_evOf (o : Opt) (u p : String) :
+    evalAtom o u p = evOf (p != "") (u == "") (evalAtom o u p .hasName) (evalAtom o u p .azInfo) (evalAtom o u p .cache)
+      (evalAtom o u p .trackNil) (evalAtom o u p .selDB) (evalAtom o u p .readonly) (evalAtom o u p .noTouch)
+      (evalAtom o u p .noEvict) (evalAtom o u p .redirect) (evalAtom o u p .setInfo2) (evalAtom o u p .setInfoNil) := by
   funext a; cases a <;> rfl
-
-private theorem forall_ev {P : (Atom → Bool) → Prop}
-    (h : ∀ b0 b1 b2 b3 b4 b5 b6 b7 b8 b9 b10 b11 b12, P (evOf b0 b1 b2 b3 b4 b5 b6 b7 b8 b9 b10 b11 b12)) :
-    ∀ ev, P ev := fun ev => ev_eq ev ▸ h ..
 
 /-! ### token-level facts, decided over all valuations -/
 
@@ -48,26 +50,30 @@ private theorem token_facts_all :
     ∀ b0 b1 b2 b3 b4 b5 b6 b7 b8 b9 b10 b11 b12, tokenFacts (evOf b0 b1 b2 b3 b4 b5 b6 b7 b8 b9 b10 b11 b12) = true := by
   decide +kernel
 
-private theorem token_facts (ev : Atom → Bool) : tokenFacts ev = true :=
-  forall_ev (P := fun ev => tokenFacts ev = true) token_facts_all ev
+private theorem token_facts (o : Opt) (u p : String) : tokenFacts (evalAtom o u p) = true := by
+  rw [evalAtom_is_evOf]; exact token_facts_all ..
 
-private theorem required3_sub (ev : Atom → Bool) :
-    List.Sublist (required3 ev) (plan3T ev).init ∧ (plan3T ev).init.head? = some (hello3Spec ev) := by
-  have h := token_facts ev
+private theorem required3_sub (o : Opt) (u p : String) :
+    List.Sublist (required3 (evalAtom o u p)) (plan3T (evalAtom o u p)).init ∧
+    (plan3T (evalAtom o u p)).init.head? = some (hello3Spec (evalAtom o u p)) := by
+  have h := token_facts o u p
   simp only [tokenFacts, Bool.and_eq_true, List.isSublist_iff_sublist, beq_iff_eq] at h
   exact ⟨h.1.1.1.1.1.1, h.1.1.1.1.1.2⟩
 
-private theorem required2_sub (ev : Atom → Bool) : List.Sublist (required2 ev) (plan2T ev).init ∧
-    (plan2T ev).init.take (auth2Spec ev).length = auth2Spec ev ∧ (plan2T ev).helloIndex = (auth2Spec ev).length := by
-  have h := token_facts ev
+private theorem required2_sub (o : Opt) (u p : String) :
+    List.Sublist (required2 (evalAtom o u p)) (plan2T (evalAtom o u p)).init ∧
+    (plan2T (evalAtom o u p)).init.take (auth2Spec (evalAtom o u p)).length = auth2Spec (evalAtom o u p) ∧
+    (plan2T (evalAtom o u p)).helloIndex = (auth2Spec (evalAtom o u p)).length := by
+  have h := token_facts o u p
   simp only [tokenFacts, Bool.and_eq_true, List.isSublist_iff_sublist, beq_iff_eq] at h
   exact ⟨h.1.1.1.1.2, h.1.1.1.2, h.1.1.2⟩
 
 /-- every command starts with a literal word (so `init[i][0] == "READONLY"/"CLIENT"` is a test on
     that literal), the unchecked replies are exactly those of the CLIENT SETINFO commands, and HELLO
     is inside the checked range -/
-theorem heads_are_literals (ev : Atom → Bool) : headsOK (plan3T ev) = true ∧ headsOK (plan2T ev) = true := by
-  have h := token_facts ev
+theorem heads_are_literals (o : Opt) (u p : String) :
+    headsOK (plan3T (evalAtom o u p)) = true ∧ headsOK (plan2T (evalAtom o u p)) = true := by
+  have h := token_facts o u p
   simp only [tokenFacts, Bool.and_eq_true] at h
   exact ⟨h.1.2, h.2⟩
 
@@ -84,14 +90,14 @@ theorem plan_contains_required_in_order (o : Opt) (u p : String) :
     List.Sublist ((required2 ev).map (substCmd o u p)) (plan2 o u p) ∧
     (plan2 o u p).take (auth2Spec ev).length = (auth2Spec ev).map (substCmd o u p) := by
   intro ev
-  refine ⟨(required3_sub ev).1.map _, ?_, (required2_sub ev).1.map _, ?_⟩
+  refine ⟨(required3_sub o u p).1.map _, ?_, (required2_sub o u p).1.map _, ?_⟩
   · show (plan3 o u p).head? = _
     simp only [plan3, List.head?_map]
-    rw [show (plan3T (evalAtom o u p)).init.head? = some (hello3Spec ev) from (required3_sub ev).2]
+    rw [show (plan3T (evalAtom o u p)).init.head? = some (hello3Spec ev) from (required3_sub o u p).2]
     rfl
   · show (plan2 o u p).take _ = _
     simp only [plan2, ← List.map_take]
-    rw [show List.take (auth2Spec ev).length (plan2T (evalAtom o u p)).init = auth2Spec ev from (required2_sub ev).2.1]
+    rw [show List.take (auth2Spec ev).length (plan2T (evalAtom o u p)).init = auth2Spec ev from (required2_sub o u p).2.1]
 
 /-- credentials are what the spec says at string level: configured credentials (a user name or a
     password) are the first thing on a RESP3 connection -/
@@ -112,6 +118,28 @@ theorem credentials_first (o : Opt) (u p : String) (h : u ≠ "" ∨ p ≠ "") :
     simp [hello3Spec, authArgs, evalAtom, hu, hn, hp', substCmd, substTok, lits, Kw.str]
   · simp [hello3Spec, authArgs, evalAtom, hu, hn, substCmd, substTok, lits, Kw.str]
   · simp [hello3Spec, authArgs, evalAtom, hu, hn, substCmd, substTok, lits, Kw.str]
+
+/-- **plan_authenticates_configured_user.** For every option record whose resolved user name is not
+    empty — also when the password IS empty (an ACL user with `nopass`, or an AuthCredentialsFn that
+    returns only a user name) — the RESP3 plan starts with `HELLO 3 AUTH <username> <password>` and
+    the RESP2 sequence starts with `AUTH <username> <password>`: the connection never runs as the
+    server's default user when a user name is configured. -/
+theorem plan_authenticates_configured_user (o : Opt) (u p : String) (hu : u ≠ "") :
+    (∃ rest, (plan3 o u p).head? = some (["HELLO", "3", "AUTH", u, p] ++ rest)) ∧
+    (plan2 o u p).head? = some ["AUTH", u, p] := by
+  constructor
+  · refine ⟨if o.clientName = "" then [] else ["SETNAME", o.clientName], ?_⟩
+    have := credentials_first o u p (.inl hu)
+    simpa [hu] using this
+  · have h2 := (plan_contains_required_in_order o u p).2.2.2
+    have hlen : (auth2Spec (evalAtom o u p)) = [[.lit .k_AUTH, .username, .password]] := by
+      simp [auth2Spec, evalAtom, hu]
+    rw [hlen] at h2
+    have : (plan2 o u p).take 1 = [["AUTH", u, p]] := by
+      simpa [substCmd, substTok, Kw.str] using h2
+    cases hp : plan2 o u p with
+    | nil => simp [hp] at this
+    | cons c r => simp [hp] at this; simp [this]
 
 /-! ### the reply-evaluation loops -/
 
